@@ -2,3 +2,55 @@
 
 /// Token type returned by `scim_sync_generate_token` / OAuth2 flows (the harness does not link compact_jwt itself).
 pub use compact_jwt::JwsCompact;
+
+/// LDAP wire types used by `LdapServer::do_op` (the harness does not link ldap3_proto itself).
+pub use ldap3_proto;
+
+use crate::idm::accountpolicy::ResolvedAccountPolicy;
+use crate::idm::server::{IdmServerProxyWriteTransaction, IdmServerTransaction};
+use crate::prelude::*;
+use crate::value::{AuthType, Session, SessionState};
+use kanidm_proto::internal::UserAuthToken;
+
+/// What the OAuth2 unit tests do in their set-up: issue a user auth token for `target`, store the
+/// matching session on the account and resolve the token to an `Identity`.
+/// (`Account::to_userauthtoken` and `target_to_account` are crate-private.)
+pub fn issue_session(
+    w: &mut IdmServerProxyWriteTransaction<'_>,
+    target: Uuid,
+    session_id: Uuid,
+    cred_id: Uuid,
+    ct: Duration,
+) -> Result<(UserAuthToken, Identity), OperationError> {
+    let account = w.target_to_account(target)?;
+    let policy = ResolvedAccountPolicy::fold_from(std::iter::empty());
+    let uat = account
+        .to_userauthtoken(session_id, SessionScope::ReadWrite, ct, &policy)
+        .ok_or(OperationError::InvalidState)?;
+    let state = uat
+        .expiry
+        .map(SessionState::ExpiresAt)
+        .unwrap_or(SessionState::NeverExpires);
+    let session = Value::Session(
+        session_id,
+        Session {
+            label: "verif".to_string(),
+            state,
+            issued_at: time::OffsetDateTime::UNIX_EPOCH + ct,
+            issued_by: IdentityId::Internal(UUID_SYSTEM),
+            cred_id,
+            scope: SessionScope::ReadWrite,
+            type_: AuthType::Passkey,
+            ext_metadata: Default::default(),
+        },
+    );
+    w.qs_write.internal_modify_uuid(
+        target,
+        &ModifyList::new_list(vec![Modify::Present(
+            Attribute::UserAuthTokenSession,
+            session,
+        )]),
+    )?;
+    let ident = w.process_uat_to_identity(&uat, ct, Source::Internal)?;
+    Ok((uat, ident))
+}
